@@ -14,3 +14,5 @@ Definition ix_and (x y : Z) : Z := Z.land x y.
 Definition ix_saturating_sub (a b : Z) : Z := if a <? b then 0 else a - b.
 (* Digit::count_zeros *)
 Definition u_count_zeros (w x : Z) : Z := w - u_count_ones x.
+(* u32::checked_sub *)
+Definition ix_checked_sub (a b : Z) : option Z := if a <? b then None else Some (a - b).
